@@ -172,6 +172,9 @@ func genC20(g *Gen, i int) Group {
 // method values of one method, instantiations of one generic function, top-level functions)
 // registered under different names, next to ordinary synthesised registrations.
 func genC04(g *Gen, i int) Group {
+	if i%13 == 7 {
+		return g.embeddedCase(i)
+	}
 	if i%5 == 4 {
 		if i%10 == 9 && i%4 == 1 {
 			return g.aliasAfterBuildCase(i)
@@ -341,6 +344,12 @@ func genContainer(g *Gen, prop string, i int) Group {
 	regs := g.RegSet(cfg)
 	if prop == "C07" && i%7 == 3 {
 		return g.aliasRemovalCase(i)
+	}
+	if (prop == "C03" || prop == "C08" || prop == "C05" || prop == "C01" || prop == "C02") && i%11 == 4 {
+		return g.dupDepCase(i)
+	}
+	if (prop == "C02" || prop == "C05" || prop == "C07" || prop == "C08" || prop == "C03") && i%11 == 9 {
+		return g.embeddedCase(i)
 	}
 	if (prop == "C01" || prop == "C02" || prop == "C03" || prop == "C10" || prop == "C07") && i%8 == 6 {
 		if i%16 == 14 {
@@ -1232,4 +1241,132 @@ func (g *Gen) snapshotTwins(i int) Group {
 	}
 	without := append(append([]Op(nil), head...), hist...)
 	return Group{Kind: "snapshot-twins", Cases: []Case{{Name: fmt.Sprintf("%d/changed", i), Ops: with}, {Name: fmt.Sprintf("%d/unchanged", i), Ops: without}}}
+}
+
+// embeddedCase: a parameter object that takes one dependency through an embedded (anonymous) field, and a result
+// object that provides one service through an embedded field. An embedded field is a dependency / an output like
+// any other: it is wired, it counts for cycles, lifetime conflicts and missing dependencies, and the constructor
+// of the result object runs once per scope.
+func (g *Gen) embeddedCase(i int) Group {
+	mk := func(life int, f Form, dyn []int) *Reg {
+		r := &Reg{ID: g.nextRid, Life: life, Form: f, Dyn: dyn}
+		for range dyn {
+			r.CFail = append(r.CFail, false)
+		}
+		g.nextRid++
+		return r
+	}
+	var regs []*Reg
+	variant := g.n(5) // 0 valid, 1 captive, 2 missing, 3 cycle, 4 valid with the optional shape
+	lc := g.life([3]int{1, 1, 1})
+	l0 := Singleton
+	switch variant {
+	case 1:
+		l0 = Scoped
+		if lc == Scoped {
+			lc = Transient
+		}
+	default:
+		if lc == Scoped || lc == Transient {
+			l0 = g.life([3]int{1, 1, 1})
+			if lc == Transient && l0 == Scoped {
+				l0 = Transient
+			}
+		}
+	}
+	var ps []Param
+	switch {
+	case variant == 4:
+		ps = []Param{{Dep: Dep{Ty: 1, Opt: true}}, {Emb: true, Dep: Dep{Ty: 0}}}
+	case g.p(0.5):
+		ps = []Param{{Emb: true, Dep: Dep{Ty: 0}}}
+	default:
+		ps = []Param{{Emb: true, Dep: Dep{Ty: 0}}, {Dep: Dep{Ty: 1}}}
+	}
+	consumer := mk(lc, Form{Kind: "ctor", InObj: true, Params: ps, Rets: []int{7}}, []int{7})
+	p0 := mk(l0, Form{Kind: "ctor", Rets: []int{0}}, []int{0})
+	if variant == 3 {
+		p0.Form.Params = []Param{{Dep: Dep{Ty: 7}}}
+		p0.Life, consumer.Life = Transient, Transient
+	}
+	if variant != 2 {
+		regs = append(regs, p0)
+	}
+	needs1 := false
+	for _, p := range ps {
+		if p.Dep.Ty == 1 && !p.Dep.Opt {
+			needs1 = true
+		}
+	}
+	if needs1 || (variant == 4 && g.p(0.5)) {
+		regs = append(regs, mk(Singleton, Form{Kind: "ctor", Rets: []int{1}}, []int{1}))
+	}
+	regs = append(regs, consumer)
+	// the result object with an embedded field
+	lo := g.life([3]int{1, 2, 1})
+	out := mk(lo, Form{Kind: "result", Fields: []Field{{Ty: 2, Emb: true}, {Ty: 3}}}, []int{2, 3})
+	regs = append(regs, out)
+	g.rnd.Shuffle(len(regs), func(a, b int) { regs[a], regs[b] = regs[b], regs[a] })
+	ops := addOps(regs)
+	ops = append(ops, Op{Kind: "count"}, Op{Kind: "build"}, Op{Kind: "createscope", P: 0, Parent: 0})
+	for rep := 0; rep < 2; rep++ {
+		h := 1
+		if rep == 1 && g.p(0.4) {
+			h = 0
+		}
+		ops = append(ops, Op{Kind: "resolve", P: 0, H: h, Ty: 3}, Op{Kind: "resolve", P: 0, H: h, Ty: 2}, Op{Kind: "resolve", P: 0, H: h, Ty: 3},
+			Op{Kind: "resolve", P: 0, H: h, Ty: 7}, Op{Kind: "resolve", P: 0, H: h, Ty: 0})
+	}
+	ops = append(ops, Op{Kind: "close", P: 0, H: 1}, Op{Kind: "closeprovider", P: 0})
+	return Group{Cases: []Case{{Name: fmt.Sprintf("%d/embedded", i), Ops: ops}}}
+}
+
+// dupDepCase: one constructor that takes the same dependency twice (two positional parameters of one type, two
+// fields of one type with the same tags, the same group twice, the same absent optional service twice). Each
+// occurrence is wired on its own: two transient instances, one scoped or singleton instance twice, and the
+// registration set builds.
+func (g *Gen) dupDepCase(i int) Group {
+	tys := g.rnd.Perm(8)
+	lx := g.life([3]int{1, 1, 2})
+	x := &Reg{ID: g.nextRid, Life: lx, Form: Form{Kind: "ctor", Rets: []int{tys[0]}}, Dyn: []int{tys[0]}, CFail: []bool{false}}
+	g.nextRid++
+	lc := Transient
+	if lx == Singleton && g.p(0.5) {
+		lc = Singleton
+	} else if lx != Transient && g.p(0.3) {
+		lc = Scoped
+	} else if lx == Scoped {
+		lc = Scoped
+	}
+	var ps []Param
+	inobj := g.p(0.5)
+	regs := []*Reg{x}
+	switch g.n(4) {
+	case 0, 1:
+		ps = []Param{{Dep: Dep{Ty: tys[0]}}, {Dep: Dep{Ty: tys[0]}}}
+		if g.p(0.3) {
+			ps = append(ps, Param{Dep: Dep{Ty: tys[0]}})
+		}
+	case 2:
+		x.Group = 1
+		y := &Reg{ID: g.nextRid, Life: lx, Form: Form{Kind: "ctor", Rets: []int{tys[0]}}, Dyn: []int{tys[0]}, CFail: []bool{false}, Group: 1}
+		g.nextRid++
+		regs = append(regs, y)
+		ps = []Param{{Dep: Dep{Ty: tys[0], Group: 1}}, {Dep: Dep{Ty: tys[0], Group: 1}}}
+		inobj = true
+	default:
+		ps = []Param{{Dep: Dep{Ty: tys[1], Opt: true}}, {Dep: Dep{Ty: tys[0]}}, {Dep: Dep{Ty: tys[1], Opt: true}}}
+		inobj = true
+	}
+	c := &Reg{ID: g.nextRid, Life: lc, Form: Form{Kind: "ctor", InObj: inobj, Params: ps, Rets: []int{tys[2]}}, Dyn: []int{tys[2]}, CFail: []bool{false}}
+	g.nextRid++
+	regs = append(regs, c)
+	if g.p(0.5) {
+		regs[0], regs[len(regs)-1] = regs[len(regs)-1], regs[0]
+	}
+	ops := addOps(regs)
+	ops = append(ops, Op{Kind: "build"}, Op{Kind: "createscope", P: 0, Parent: 0},
+		Op{Kind: "resolve", P: 0, H: 1, Ty: tys[2]}, Op{Kind: "resolve", P: 0, H: 1, Ty: tys[2]}, Op{Kind: "resolve", P: 0, H: 0, Ty: tys[2]},
+		Op{Kind: "closeprovider", P: 0})
+	return Group{Cases: []Case{{Name: fmt.Sprintf("%d/dup-dep", i), Ops: ops}}}
 }
